@@ -76,7 +76,7 @@ class SubCtx:
 def known_keys():
     p = os.path.join(VERIF, 'known_findings.json')
     d = json.load(open(p)) if os.path.exists(p) else {'findings': []}
-    return set((f['property'], f['key']) for f in d.get('findings', []))
+    return set((f['property'], mir.canon(f['key'])) for f in d.get('findings', []))
 
 
 def compile_matrix(ctx, pairs):
